@@ -718,7 +718,7 @@ pub fn component_repetition(rng: &mut Rng) -> String {
     if rng.chance(1, 4) {
         // Bodies of several components under an open-ended bound with a non-zero lower bound:
         // unbounded in depth, yet only some depths are matched.
-        s.push_str(rng.pick_str(&["*/*/", "*/a/", "*/?/", "?/*/", "*/*/*/", "a/*/", "*/<?>/"]));
+        s.push_str(rng.pick_str(&["*/*/", "*/a/", "*/?/", "?/*/", "*/*/*/", "a/*/", "*/<?>/", "{*/*/}", "{*/}*/", "{?/*/}", "*/{*/}", "{*/*/*/}"]));
         s.push_str(rng.pick_str(&[":1,", ":2,", ":3,", ":1,", ""]));
     }
     else if rng.chance(1, 5) {
